@@ -318,6 +318,10 @@ func main() {
 		mainConc()
 		return
 	}
+	if len(os.Args) >= 4 && os.Args[1] == "storm" {
+		mainStorm()
+		return
+	}
 	if len(os.Args) < 4 || os.Args[1] != "seq" {
 		vh.Fatal("usage: c39 seq <exports> <scale> | c39 conc <n> <out>")
 	}
